@@ -32,7 +32,7 @@ def _guard(f, args, label):
                      detail={"reason": "%r at %s:%s" % (ex, last.filename, last.lineno)})]
 
 
-def _dec(items, t0, budget=30):
+def _dec(items, t0, budget=150):
     out = []
     for name, e in items:
         st, det = alg.prove_zero(sp.sympify(e), budget=budget)
@@ -130,7 +130,7 @@ def _interp_case(args, t0):
     out = []
     for name, e in items:
         e2 = sp.expand_log(sp.expand(sp.sympify(e)), force=True)
-        st, det = alg.prove_zero(sp.expand(e2), budget=30)
+        st, det = alg.prove_zero(sp.expand(e2), budget=150)
         out.append(dict(name=name, status=st, seconds=time.time() - t0, detail=det))
     return out
 
